@@ -43,10 +43,10 @@ def derive_seed(*parts):
 
 
 def run_shard(prop, subname, shard, nshards, tier, seed, armed):
+    mod = load(prop)  # must come first: fixes Config.max_limit before storage modules are imported
     from vlib.core import Recorder
     from vlib.harness import HarnessError
 
-    mod = load(prop)
     sub = sub_by_name(mod, subname)
     rec = Recorder()
     out = {"prop": prop, "sub": subname, "shard": shard, "violations": [], "harness_errors": []}
@@ -134,9 +134,9 @@ def run_shard(prop, subname, shard, nshards, tier, seed, armed):
 
 
 def run_replays(prop, files):
+    mod = load(prop)
     from vlib.harness import HarnessError
 
-    mod = load(prop)
     res = []
     for f in files:
         entry = {"file": f, "violations": [], "error": None}
